@@ -106,7 +106,7 @@ func Shrink(t *testing.T, h Harness, rf *ReplayFile, known *Known, budget time.D
 	return &ReplayFile{Property: rf.Property, Harness: rf.Harness, Seed: rf.Seed, Tape: best, Violation: v,
 		LogHash: bestRun.LogHash(), Log: bestRun.Log(), Sample: bestRun.Sample, Counters: bestRun.Counters, Shrunk: true,
 		ShrinkNote: fmt.Sprintf("tape %d -> %d values, %d candidates tried, %d accepted, %.1fs", len(rf.Tape), len(best), tried, accepted, time.Since(start).Seconds()),
-		Tier: rf.Tier}
+		Tier:       rf.Tier}
 }
 
 func lexLess(a, b []int) bool {
